@@ -59,9 +59,9 @@ def _case_id(m) -> str:
     return hashlib.sha256(json.dumps(m, sort_keys=True).encode()).hexdigest()[:12]
 
 
-def _run_workers(ctx, kind, items, extra=None):
-    """Split items over NWORK subprocess workers; returns the concatenated outputs (input order)."""
-    n = max(1, min(NWORK, (len(items) + 7) // 8))
+def _run_workers(ctx, kind, items, extra=None, nwork=NWORK):
+    """Split items over subprocess workers; returns the concatenated outputs (input order)."""
+    n = max(1, min(nwork, (len(items) + 7) // 8))
     size = (len(items) + n - 1) // n
     procs = []
     for w in range(n):
@@ -155,57 +155,75 @@ def _diff_fields(exp, obs):
 
 def run(ctx):
     ev, v = ctx.ev, ctx.v
-    # ------------------------------------------------------------------ 1. Mbox theorem
+    from concurrent.futures import ThreadPoolExecutor
+    pool = ThreadPoolExecutor(max_workers=8)
+    # ------------------------------------------------------------------ 1. + 2. TLC on the specifications
     maxlen = 6 if ctx.thorough else 5
-    invs = "INVARIANT Inv_SplitIsDecl\nINVARIANT Inv_BoundariesOnlyAtSep\nINVARIANT Inv_InOrderNoLoss\n"
-    cfg = f"SPECIFICATION Spec\nCONSTANTS MaxLen = {maxlen}\n Deviations = {{}}\n{invs}"
-    r = run_tlc("Mbox", cfg, scratch=ctx.scratch, timeout=1500, heap="8g")
-    ev.tlc(f"Mbox: splitter model = declarative boundaries, all line-class sequences len <= {maxlen}", r)
-    if r.violated:
-        v.violation(what=f"Mbox.tla: {r.violated} violated on the specification itself", observed=r.trace[-1:])
-    for dev in ("AnyFromLine", "NoAnchor"):
-        cfg_s = f'SPECIFICATION Spec\nCONSTANTS MaxLen = 3\n Deviations = {{"{dev}"}}\nINVARIANT Inv_SplitIsDecl\n'
-        rs = run_tlc("Mbox", cfg_s, scratch=ctx.scratch, expect_fail=True)
-        ev.tlc(f"Mbox sensitivity: deviation {dev} must break Inv_SplitIsDecl", rs, note="expected violation")
-        if not rs.violated:
-            raise MachineryError(f"Mbox sensitivity run ({dev}) did not fail: invariant vacuous")
-    # line-class sequences for the replay: the initial states of the same module
-    dump = ctx.scratch / "mboxgen.dump"
     lmax = 5 if ctx.thorough else 4
-    rg = run_tlc("Mbox", f"SPECIFICATION GenSpec\nCONSTANTS MaxLen = {lmax}\n Deviations = {{}}\n",
-                 scratch=ctx.scratch, dump=dump)
+    K = 2 if ctx.thorough else 1
+    invs = "INVARIANT Inv_SplitIsDecl\nINVARIANT Inv_BoundariesOnlyAtSep\nINVARIANT Inv_InOrderNoLoss\n"
+    dump, mdump = ctx.scratch / "mboxgen.dump", ctx.scratch / "mailgen.dump"
+    gcfg = f"SPECIFICATION Spec\nCONSTANTS K = {K}\n Deviations = {{}}\nINVARIANT Inv_BodySelection\n"
+    f_thm = pool.submit(run_tlc, "Mbox", f"SPECIFICATION Spec\nCONSTANTS MaxLen = {maxlen}\n Deviations = {{}}\n{invs}",
+                        scratch=ctx.scratch, timeout=1500, heap="8g", workers=8)
+    f_sens = {dev: pool.submit(run_tlc, "Mbox", f'SPECIFICATION Spec\nCONSTANTS MaxLen = 3\n Deviations = {{"{dev}"}}\n'
+                               f'INVARIANT Inv_SplitIsDecl\n', scratch=ctx.scratch, expect_fail=True, workers=2)
+              for dev in ("AnyFromLine", "NoAnchor")}
+    # line-class sequences for the replay: the initial states of the same module
+    f_gen = pool.submit(run_tlc, "Mbox", f"SPECIFICATION GenSpec\nCONSTANTS MaxLen = {lmax}\n Deviations = {{}}\n",
+                        scratch=ctx.scratch, dump=dump, workers=2)
+    f_mail = pool.submit(run_tlc, "MailGen", gcfg, scratch=ctx.scratch, dump=mdump, timeout=1500, workers=4)
+    f_msens = pool.submit(run_tlc, "MailGen", gcfg.replace("{}", '{"WalkNoAttachmentSkip"}').replace(f"K = {K}", "K = 1"),
+                          scratch=ctx.scratch, expect_fail=True, workers=2)
+
+    rm = f_mail.result()
+    ev.tlc(f"MailGen: abstract messages (cover K={K}) + body-selection theorem", rm)
+    if rm.violated:
+        v.violation(what=f"MailGen: {rm.violated} violated on the specification itself", observed=rm.trace[-1:])
+    msgs = sorted((_plain(s["m"]) for s in iter_dump(mdump)), key=lambda m: json.dumps(m, sort_keys=True))
+    if len(msgs) != rm.distinct:
+        raise MachineryError(f"MailGen dump has {len(msgs)} states, TLC reported {rm.distinct}")
+    rg = f_gen.result()
     ev.tlc(f"Mbox GenSpec: line-class sequences len <= {lmax} x fin for the replay", rg)
     seqs = sorted({(tuple(s["lines"]), bool(s["fin"])) for s in iter_dump(dump)})
     if len(seqs) != rg.distinct:
         raise MachineryError(f"Mbox dump has {len(seqs)} states, TLC reported {rg.distinct}")
+    ctx.log(f"{len(msgs)} abstract messages, {len(seqs)} line-class sequences ({time.time() - ev.t0:.1f}s)")
 
-    # ------------------------------------------------------------------ 2. abstract messages
-    K = 2 if ctx.thorough else 1
-    gcfg = f"SPECIFICATION Spec\nCONSTANTS K = {K}\n Deviations = {{}}\nINVARIANT Inv_BodySelection\n"
-    mdump = ctx.scratch / "mailgen.dump"
-    r = run_tlc("MailGen", gcfg, scratch=ctx.scratch, dump=mdump, timeout=1500)
-    ev.tlc(f"MailGen: abstract messages (cover K={K}) + body-selection theorem", r)
+    # ------------------------------------------------------------------ 3. replay (while the theorem runs finish)
+    nvar = 3 if ctx.thorough else 1
+    items = [{"id": f"{_case_id(m)}.{k}", "m": m} for m in msgs for k in range(nvar)]
+    line_items = [{"lines": list(ls), "fin": fin, "eol": eol} for (ls, fin) in seqs for eol in ("LF", "CRLF")]
+    t0 = time.time()
+    f1 = pool.submit(_run_workers, ctx, "mail", items)
+    f2 = pool.submit(_run_workers, ctx, "lines", line_items, None, 6)
+    f3 = pool.submit(_run_workers, ctx, "fixtures", [list(f) for f in FIXTURES])
+    mail_out, line_out, fix_out = f1.result(), f2.result(), f3.result()
+    ctx.log(f"replay done in {time.time() - t0:.1f}s: {len(mail_out)} message cases, {len(line_out)} mailboxes")
+
+    r = f_thm.result()
+    ev.tlc(f"Mbox: splitter model = declarative boundaries, all line-class sequences len <= {maxlen}", r)
     if r.violated:
-        v.violation(what=f"MailGen: {r.violated} violated on the specification itself", observed=r.trace[-1:])
-    rs = run_tlc("MailGen", gcfg.replace("{}", '{"WalkNoAttachmentSkip"}').replace(f"K = {K}", "K = 1"),
-                 scratch=ctx.scratch, expect_fail=True)
+        v.violation(what=f"Mbox.tla: {r.violated} violated on the specification itself", observed=r.trace[-1:])
+    for dev, f in f_sens.items():
+        rs = f.result()
+        ev.tlc(f"Mbox sensitivity: deviation {dev} must break Inv_SplitIsDecl", rs, note="expected violation")
+        if not rs.violated:
+            raise MachineryError(f"Mbox sensitivity run ({dev}) did not fail: invariant vacuous")
+    rs = f_msens.result()
     ev.tlc("MailGen sensitivity: walk without attachment skip must break Inv_BodySelection", rs, note="expected violation")
     if not rs.violated:
         raise MachineryError("MailGen sensitivity run did not fail: Inv_BodySelection vacuous")
-    msgs = sorted((_plain(s["m"]) for s in iter_dump(mdump)), key=lambda m: json.dumps(m, sort_keys=True))
-    if len(msgs) != r.distinct:
-        raise MachineryError(f"MailGen dump has {len(msgs)} states, TLC reported {r.distinct}")
-    ctx.log(f"{len(msgs)} abstract messages, {len(seqs)} line-class sequences (TLC part {time.time() - ev.t0:.1f}s)")
 
-    # ------------------------------------------------------------------ 3. replay
-    nvar = 3 if ctx.thorough else 1
-    items = [{"id": f"{_case_id(m)}.{k}", "m": m} for m in msgs for k in range(nvar)]
-    t0 = time.time()
-    mail_out = _run_workers(ctx, "mail", items)
-    line_items = [{"lines": list(ls), "fin": fin, "eol": eol} for (ls, fin) in seqs for eol in ("LF", "CRLF")]
-    line_out = _run_workers(ctx, "lines", line_items)
-    fix_out = _run_workers(ctx, "fixtures", [list(f) for f in FIXTURES])
-    ctx.log(f"replay done in {time.time() - t0:.1f}s: {len(mail_out)} message cases, {len(line_out)} mailboxes")
+    # ------------------------------------------------------------------ 4b (started here, collected below)
+    ltraces, lmeta = [], []
+    for i, (it, o) in enumerate(zip(line_items, line_out)):
+        for e in o["ev"]:
+            ltraces.append({"id": f"L{i}:{e['a']}", "hdr": {"lines": it["lines"], "fin": it["fin"], "eol": it["eol"]}, "ev": [e]})
+            lmeta.append((it, o, e))
+    lcfg = "SPECIFICATION TraceSpec\nCONSTRAINT TraceAccept\nCONSTANTS MaxLen = 6\n Deviations = {}\n"
+    lcfg = "SPECIFICATION TraceSpec\nCONSTRAINT TraceAccept\nCONSTANTS MaxLen = 6\n Deviations = {}\n"
+    f_brl = pool.submit(validate, "MboxTrace", lcfg, ltraces, scratch=ctx.scratch, parallel=6, min_chunk=300)
 
     # ------------------------------------------------------------------ 4a. validate messages
     traces, meta = [], []
@@ -274,13 +292,7 @@ def run(ctx):
                    "eml_head": o.get("head", "")[:300], "eml_obs": o["eml"].get("obs", o["eml"]) if isinstance(o["eml"], dict) else None})
 
     # ------------------------------------------------------------------ 4b. validate mailboxes
-    ltraces, lmeta = [], []
-    for i, (it, o) in enumerate(zip(line_items, line_out)):
-        for e in o["ev"]:
-            ltraces.append({"id": f"L{i}:{e['a']}", "hdr": {"lines": it["lines"], "fin": it["fin"], "eol": it["eol"]}, "ev": [e]})
-            lmeta.append((it, o, e))
-    lcfg = "SPECIFICATION TraceSpec\nCONSTRAINT TraceAccept\nCONSTANTS MaxLen = 6\n Deviations = {}\n"
-    brl = validate("MboxTrace", lcfg, ltraces, scratch=ctx.scratch, parallel=12, min_chunk=300)
+    brl = f_brl.result()
     ev.tlc_counts("MboxTrace: split blocks and results of concretised line-class mailboxes validated", brl.distinct, brl.states, brl.wall_s)
     ctx.log(f"MboxTrace validated {len(ltraces)} traces in {brl.wall_s:.1f}s")
     ev.replayed(len(ltraces))
